@@ -6,12 +6,18 @@ What a theorem can carry here is the parser's bookkeeping, not its 2,500 lines o
    without leaving the buffer, and reading at the end yields the sentinel, never a byte outside [cursor_stays_in_buffer, peek_total];
  * the depth accounting of `Depth_Counter` (limit 512): a descent guarded by it never runs deeper than the limit, and reports
    the limit as an error exactly when the nesting exceeds it [guarded_descent_bounded, guarded_descent_reports];
+ * the recursion structure, regenerated from chaiscript_parser.hpp on every run (Gen/ParseGraph.lean): every cycle of the parser's call
+   graph passes through a function that holds a named `Depth_Counter` [parser_cycles_are_guarded, by kernel evaluation of the
+   regenerated graph and its rank certificate]; hence ANY native call stack of the parser, for any input, is at most
+   (limit+1)·(maxRank+2)+maxRank+1 frames deep [parser_native_stack_bounded] — the bound does not depend on the input;
  * the acceptance rule of `parse_internal` (after fix 78c56f2): a tree is returned only when every byte was consumed
    [accepted_means_whole_input].
 Memory safety, termination and absence of foreign exceptions for the parser as a whole are NOT proved: the check explores them
 with the real parser under AddressSanitizer/UBSan on generated, mutated and pathological inputs (see checks/c01.py).
 -/
 import ChaiVerif.Props.C20
+import ChaiVerif.Lemmas.ParseGraph
+import ChaiVerif.Gen.ParseGraph
 namespace ChaiVerif.C01
 open ChaiVerif
 
@@ -78,6 +84,47 @@ theorem guarded_descent_reports (limit : Nat) : ∀ (n d : Nat), d ≤ limit →
     · rename_i h
       rw [ih (d + 1) (by omega)]
       omega
+
+/-! ### the recursion structure of the real parser (regenerated call graph) -/
+
+open PG in
+/-- the call graph of `ChaiScript_Parser` as extracted from the current source -/
+def parserGraph : PG.Graph := ⟨Gen.parseGuarded, Gen.parseRank, Gen.parseEdges⟩
+
+/-- **every recursion of the parser goes through a `Depth_Counter`**: along each call edge between two functions that hold no
+    (named, constructed-before-the-first-call) `Depth_Counter`, the regenerated rank strictly decreases, so no cycle avoids the guard.
+    Checked by the kernel on the graph extracted from the source of this run. -/
+theorem parser_cycles_are_guarded : parserGraph.ok = true := by decide +kernel
+
+/-- general form: in a graph whose cycles are all guarded, a call stack with `d` live `Depth_Counter`s has at most
+    `d·(maxRank+2) + maxRank+1` frames -/
+theorem guarded_graph_stack_bounded (G : PG.Graph) (hok : G.ok = true) (p : List Nat) (hc : G.chain p) :
+    p.length ≤ G.depth p * (G.maxRank + 2) + (G.maxRank + 1) := by
+  have h := PG.stack_bounded_aux G hok p hc
+  have hl : PG.lead G p ≤ G.maxRank + 1 := by
+    cases p with
+    | nil => simp [PG.lead]
+    | cons f rest =>
+      simp only [PG.lead]
+      have := PG.r_le_maxRank G f
+      split <;> omega
+  omega
+
+/-- **the native stack of the real parser is bounded independently of the input**: `Depth_Counter`'s constructor throws as soon as
+    the count exceeds `limit` (so at most `limit + 1` guarded frames are ever live, the last one being the frame that throws);
+    any call stack of parser functions compatible with that is at most `(limit+1)·(maxRank+2) + maxRank+1` frames deep. -/
+theorem parser_native_stack_bounded (limit : Nat) (p : List Nat) (hc : parserGraph.chain p) (hd : parserGraph.depth p ≤ limit + 1) :
+    p.length ≤ (limit + 1) * (parserGraph.maxRank + 2) + (parserGraph.maxRank + 1) := by
+  have h := guarded_graph_stack_bounded parserGraph parser_cycles_are_guarded p hc
+  have : parserGraph.depth p * (parserGraph.maxRank + 2) ≤ (limit + 1) * (parserGraph.maxRank + 2) := Nat.mul_le_mul_right _ hd
+  omega
+
+/-- non-vacuity: the graph has edges, guarded and unguarded functions, and a real recursion (some function calls itself) -/
+example : parserGraph.edges.length > 100 ∧ parserGraph.guarded.contains true ∧ parserGraph.guarded.contains false
+    ∧ parserGraph.edges.any (fun e => e.1 == e.2) = true := by decide +kernel
+
+/-- the certificate condition is not trivially true: dropping the guard of a self-recursive function is rejected -/
+example : (⟨[false], [0], [(0, 0)]⟩ : PG.Graph).ok = false := by decide
 
 /-! ### the acceptance rule of `parse_internal` -/
 
